@@ -112,6 +112,17 @@ CHECKS = {
              'every number written, field counts); decimal conversion (printf/strtod), libm and the conversions (C04/C05) are trusted; format lists made only of scalar blocks '
              '(IL, RL, VSWR) cannot be loaded by design and are exempt from the load half; fprecision so low that frequencies coincide is exempt from the load half.',
         ref='DESIGN.md §6 C06'),
+    'C08': dict(
+        technique='Lean 4 proof (option line as a fold: case- and order-independence; storage/order/framing equivalences as corollaries of the C06 theorems; exact unit scaling) on a hand model + correspondence run on random option lines + independent writer of equivalent spellings as oracle',
+        text='Theorems: the option line result does not depend on letter case, nor on the order of its items when no field is given twice (last occurrence wins otherwise); '
+             'defaults GHz S MA R 50; unit scaling is inverted exactly; Upper / Lower / Full storage of a symmetric matrix, the 12_21 / 21_12 orders, and the Touchstone 1 / 2 '
+             'framings of a two-port load to the same cells, for every port count. On the compiled C: ground-truth networks written by an independent writer in many spellings '
+             '(unit x RI/MA/DB x order x matrix format x case x comments x blank lines x spacing x line breaks x option order x noise data x other framing; NPD with permuted '
+             'header lines and block orders) must each load to the ground truth.',
+        note='Lean kernel + standard axioms; Model/TsOption.lean and Model/FileFmt.lean hand-written, tied by correspondence runs (random option lines incl. repeated and '
+             'malformed ones; cell orders); the character-level scanner (comments, blanks, line breaks) is exercised by the spellings only, not modelled; strtod/libm trusted; '
+             '[Begin Information] sections and a blank after the comma of an NPD #:parameters list are not claimed as allowed spellings.',
+        ref='DESIGN.md §6 C08'),
     'C12': dict(
         technique='Lean 4 proof (retry equivalence and invariant preservation of partially completed extensions, on the vnadata model of C15) + exhaustive single-allocation-failure injection over scripted histories of the compiled C',
         text='Theorems for every object, size and stopping point: what a failed vnadata_resize leaves behind (extensions complete up to the failing stage, the failing one '
